@@ -180,7 +180,7 @@ pub fn plan(prop: &str, tier: Tier) -> Option<Plan> {
             stretched(&mut p, "C01", &all_hdr, &[9, 17, 33], if q { 4 } else { 5 }, if q { 3 } else { 4 }, &multi_req, &multi_resp, &BACKENDS);
             s2::add_entry_sweep(&mut p, q);
             s2::add_lane_phase(&mut p, q, &BACKENDS);
-            s3::add_grids(&mut p, q);
+            s3::add_grids(&mut p, q, false);
             s8::add_families(&mut p, q);
         }
         "C02" => {
@@ -206,6 +206,7 @@ pub fn plan(prop: &str, tier: Tier) -> Option<Plan> {
             all_areas(&mut p, "C05", &all_hdr, &[4], if q { 6 } else { 8 }, if q { 4 } else { 6 }, 3, 1, &multi_req, &multi_resp);
             s2::add_template_mutations(&mut p, q, &BACKENDS);
             s2::add_lane_phase(&mut p, q, &BACKENDS);
+            s2::add_pair_sweeps(&mut p, q, &BACKENDS, &[]);
         }
         "C06" => {
             p.armed = O_LANG;
@@ -220,6 +221,7 @@ pub fn plan(prop: &str, tier: Tier) -> Option<Plan> {
                 }
             }
             s2::add_field_sweeps(&mut p, q, &BACKENDS, &["method", "target", "req-version"]);
+            s2::add_pair_sweeps(&mut p, q, &BACKENDS, &["method", "target"]);
             s2::add_templates_for(&mut p, q, &BACKENDS, "request");
         }
         "C07" => {
@@ -235,6 +237,7 @@ pub fn plan(prop: &str, tier: Tier) -> Option<Plan> {
                 }
             }
             s2::add_field_sweeps(&mut p, q, &BACKENDS, &["reason", "code"]);
+            s2::add_pair_sweeps(&mut p, q, &BACKENDS, &["reason"]);
             s2::add_templates_for(&mut p, q, &BACKENDS, "response");
         }
         "C08" => {
@@ -250,6 +253,7 @@ pub fn plan(prop: &str, tier: Tier) -> Option<Plan> {
                 }
             }
             s2::add_field_sweeps(&mut p, q, &BACKENDS, &["header-name", "header-value"]);
+            s2::add_pair_sweeps(&mut p, q, &BACKENDS, &["header-name", "header-value"]);
             s2::add_templates_for(&mut p, q, &BACKENDS, "headers");
         }
         "C09" => {
@@ -258,6 +262,7 @@ pub fn plan(prop: &str, tier: Tier) -> Option<Plan> {
             p.phases.push(phase(&format!("C09: S1 chunk-size trees Σ^≤{d}"), Backend::Native, tree_tasks(chunk_trees(d, 1))));
             p.bounds.push(format!("S1: chunk size Σ(14)^≤{d} after 0/14/15/16/17 leading digits, E=1"));
             s2::add_chunk_sweeps(&mut p, q);
+            s2::add_pair_sweeps(&mut p, q, &[Backend::Native], &["chunk-ext"]);
         }
         "C10" => {
             p.armed = O_ERRKIND;
@@ -268,6 +273,7 @@ pub fn plan(prop: &str, tier: Tier) -> Option<Plan> {
             p.armed = O_PARTIAL;
             all_areas(&mut p, "C11", &all_hdr, &[1, 16], if q { 6 } else { 8 }, if q { 4 } else { 6 }, if q { 5 } else { 7 }, 0, &multi_req, &multi_resp);
             s2::add_prefix_sweep(&mut p, q, &[Backend::Native]);
+            s2::add_chunk_sweeps(&mut p, q);
         }
         "C14" => {
             p.armed = O_LANG;
@@ -365,7 +371,7 @@ pub fn plan(prop: &str, tier: Tier) -> Option<Plan> {
         }
         "C12" => {
             p.armed = 0;
-            s3::add_grids(&mut p, q);
+            s3::add_grids(&mut p, q, true);
         }
         "C13" => {
             // the in-process part of C13: forced backends and alignments must not change results
